@@ -233,6 +233,18 @@ def run(ctx):
         ok_empty, res = False, f"raises {e.exc_name}"
     finally:
         it.hooks.pop("fnname:_md_table_to_ss_structure", None)
+    # text in which the Markdown scanner finds no table at all (a csv whose cells contain '|'): the reader refuses it, so
+    # that the next reader is tried, instead of returning a workbook without sheets
+    it.reset([])
+    it.hooks["fnname:_md_table_to_ss_structure"] = lambda i, a, k, n: {}
+    try:
+        res0 = it.call_function(pm, [], {"md_": "ignored"}, {"list_to_dicts": FuncVal(lt)}, pm.node)
+        refused = f"returned {res0!r}"
+    except Raised as e:
+        refused = "refused" if "PyXFormError" in e.mro else f"raises {e.exc_name}"
+    finally:
+        it.hooks.pop("fnname:_md_table_to_ss_structure", None)
+    r2.check(refused == "refused", "md_to_dict:no table found", "text without any Markdown table is refused with a PyXFormError (the caller then tries the csv reader)", pm.loc(), why_fail=refused[:160])
     r2.check(ok_empty, "md_to_dict:sheet without rows", "a sheet that has a name but no rows reads as an empty sheet (no exception)", pm.loc(), why_fail=repr(res)[:200])
     # typed-cell normalisers
     xv = ctx.func("pyxform.xls2json_backends:xls_value_to_unicode", "C12.R2")
